@@ -248,6 +248,12 @@ pub fn run(ctx: &mut Ctx) {
                         "NAME.RANDBOUNDNAME" => {
                             // (bound names as programs can make them: plain, with blanks (NAME.CAT, CODE.PRINT), empty, non-ASCII)
                             let styles: [&[&str]; 4] = [&["bound0", "bound1", "bound2"], &["two words", "x y z", " lead"], &["", "tab\there"], &["é", "bound0", "a b"]];
+                            // (the NAME stack may already hold one of the bound names, or an unrelated one)
+                            if variant % 3 == 1 && variant % 4 > 0 {
+                                st.name_stack.push(styles[(variant / 4) % 4][0].to_string());
+                            } else if variant % 3 == 2 {
+                                st.name_stack.push("unrelated".to_string());
+                            }
                             for b in 0..(variant % 4) {
                                 st.name_bindings.insert(styles[(variant / 4) % 4][b % styles[(variant / 4) % 4].len()].to_string(), SItem::Int(b as i32).to_item());
                             }
